@@ -100,6 +100,34 @@ def histStep (s : DsmState) (h : Hist.HState Nat (Array Rat) (String × Array Ra
     (fun sfA => (table3 s.n s.m (pdfTable (arr3 s.n s.m sfA))).toArray)
     (histCompute s) Gen.setPrmsResetsSf Gen.setPrmsResetsPdf h op
 
+/-- `InflowDrivenDSM(...).compute()`; the driver itself is shown again at the end (it must be what was given) -/
+def runIdsm (s : DsmState) (vals : List String) (k : Nat) : String :=
+  match vals.mapM parseRat? with
+  | some vs =>
+    let f : Rat := 1 / (2 : Rat) ^ k
+    let g : Rat := (2 : Rat) ^ k
+    let inflow := (vs.map (· * f)).toArray
+    let r := inflowDriven s.itf s.n (arr2 s.m inflow) s.sf
+    let sc (l : List Rat) := l.map (· * g)
+    s!"ok S {showRats (sc (table2 s.n s.m r.stock))} | O {showRats (sc (table2 s.n s.m r.outflow))} | SC {showRats (sc (table3 s.n s.m r.stockByCohort))} | OC {showRats (sc (table3 s.n s.m r.outflowByCohort))} | D {showRats (sc inflow.toList)}"
+  | none => "err"
+
+/-- `StockDrivenDSM(...).compute()` -/
+def runSdsm (s : DsmState) (vals : List String) (k : Nat) : String :=
+  match vals.mapM parseRat? with
+  | some vs =>
+    let f : Rat := 1 / (2 : Rat) ^ k
+    let g : Rat := (2 : Rat) ^ k
+    let stockA := (vs.map (· * f)).toArray
+    let stock := arr2 s.m stockA
+    -- `stockDriven` = `stockDrivenFrom … (sdInflowWP …)`; the solver's table is materialised
+    -- (as an array value first: a function-valued `let` would be re-evaluated per entry)
+    let iwpTab : Array Rat := (table2 s.n s.m (sdInflowWP s.n stock s.sf)).toArray
+    let r := stockDrivenFrom s.itf s.n stock s.sf (arr2 s.m iwpTab)
+    let sc (l : List Rat) := l.map (· * g)
+    s!"ok I {showRats (sc (table2 s.n s.m r.inflow))} | O {showRats (sc (table2 s.n s.m r.outflow))} | SC {showRats (sc (table3 s.n s.m r.stockByCohort))} | OC {showRats (sc (table3 s.n s.m r.outflowByCohort))} | D {showRats (sc stockA.toList)}"
+  | none => "err"
+
 def dsmStep (s : DsmState) (toks : List String) : Option (DsmState × String) :=
   match toks with
   | "grid" :: nt :: items =>
@@ -133,22 +161,12 @@ def dsmStep (s : DsmState) (toks : List String) : Option (DsmState × String) :=
     some ({ s with sfArr := tab.toArray }, "ok " ++ showRats tab)
   | ["pdf"] =>
     some (s, "ok " ++ showRats (table3 s.n s.m (pdfTable s.sf)))
-  | "idsm" :: vals =>
-    some (match vals.mapM parseRat? with
-      | some vs =>
-        let r := inflowDriven s.itf s.n (arr2 s.m vs.toArray) s.sf
-        (s, s!"ok S {showRats (table2 s.n s.m r.stock)} | O {showRats (table2 s.n s.m r.outflow)} | SC {showRats (table3 s.n s.m r.stockByCohort)} | OC {showRats (table3 s.n s.m r.outflowByCohort)}")
-      | none => (s, "err"))
-  | "sdsm" :: vals =>
-    some (match vals.mapM parseRat? with
-      | some vs =>
-        let stock := arr2 s.m vs.toArray
-        -- `stockDriven` = `stockDrivenFrom … (sdInflowWP …)`; the solver's table is materialised
-        -- (materialised as an array value first: a function-valued `let` would be re-evaluated per entry)
-        let iwpTab : Array Rat := (table2 s.n s.m (sdInflowWP s.n stock s.sf)).toArray
-        let r := stockDrivenFrom s.itf s.n stock s.sf (arr2 s.m iwpTab)
-        (s, s!"ok I {showRats (table2 s.n s.m r.inflow)} | O {showRats (table2 s.n s.m r.outflow)} | SC {showRats (table3 s.n s.m r.stockByCohort)} | OC {showRats (table3 s.n s.m r.outflowByCohort)}")
-      | none => (s, "err"))
+  | "idsm" :: vals => some (s, runIdsm s vals 0)
+  | "sdsm" :: vals => some (s, runSdsm s vals 0)
+  -- the same with a driver of magnitude 2^-k (given as `vals`, meaning `vals * 2^-k`); results are
+  -- shown multiplied by 2^k so that they are compared at the scale of `vals`
+  | "idsmx" :: k :: vals => some (s, runIdsm s vals (k.toNat?.getD 0))
+  | "sdsmx" :: k :: vals => some (s, runSdsm s vals (k.toNat?.getD 0))
   | "fds" :: rest =>
     some (match (splitSemi rest).map (·.mapM parseRat?) with
       | [some a, some b] =>
